@@ -122,8 +122,23 @@ def comparator_in(F, tree_fid):
     return ids.pop()
 
 
+SCALAR_EXTRA = set()      # non-template overloads ipr::impl::compare(S, S) on scalar S (filled by key_opaque from the facts)
+
+
 def is_scalar_compare(fid):
-    return contracts.fn_qname(fid).startswith('ipr::impl::compare<')
+    return contracts.fn_qname(fid).startswith('ipr::impl::compare<') or fid in SCALAR_EXTRA
+
+
+def _scalar_type(F, t):
+    t = t.replace('const ', '').strip()
+    if t.endswith('&'):
+        return False
+    if t.endswith('*'):
+        return True
+    if t in F.enums:
+        return True
+    return t in ('int', 'long', 'unsigned int', 'unsigned long', 'short', 'char', 'bool', 'unsigned char', 'long long', 'unsigned long long',
+                 'std::size_t', 'std::uintptr_t', 'std::intptr_t', 'char8_t')
 
 
 def is_sv_compare(fid):
@@ -152,6 +167,10 @@ def atom_of(t):
 
 def key_opaque(F):
     base = contracts.default_opaque(F)
+    for g in F.fn.values():
+        if g['name'] == 'compare' and contracts.fn_qname(g['id']) == 'ipr::impl::compare' and len(g['params']) == 2 \
+                and all(_scalar_type(F, p['t']) for p in g['params']):
+            SCALAR_EXTRA.add(g['id'])
 
     def op(fid):
         if base(fid):
@@ -225,24 +244,34 @@ def check_scalar_compare(F, fid):
             if kind != 'return':
                 return False, 'compare may throw'
             ok = True
+            def which(t):
+                # the argument itself, or its order-preserving representation (enum -> underlying integer)
+                while isinstance(t, tuple) and t and (t[0] == 'castto' or (t[0] in ('call', 'vcall') and contracts.fn_simple(t[1]) in ('rep', 'to_underlying') and len(t[3]) == 1)):
+                    t = t[2] if t[0] == 'castto' else t[3][0]
+                return t[1] if isinstance(t, tuple) and len(t) == 2 and t[0] == 'param' and t[1] in (0, 1) else None
             for c, want in st.conds:
-                # c is call(std::less<void>::operator(), lt, (x, y))
-                if not (isinstance(c, tuple) and c[0] == 'call' and 'std::less' in c[1] and len(c[3]) == 2):
-                    return False, 'condition outside the E1 language: ' + str(c)[:80]
-                x, y = c[3]
-                if x == ('param', 0) and y == ('param', 1):
-                    truth = (o == '<')
-                elif x == ('param', 1) and y == ('param', 0):
-                    truth = (o == '>')
+                # c is call(std::less<void>::operator(), lt, (x, y)), or a built-in relation between the two arguments
+                if isinstance(c, tuple) and c[0] == 'call' and 'std::less' in c[1] and len(c[3]) == 2:
+                    rel, (x, y) = '<', c[3]
+                elif isinstance(c, tuple) and len(c) == 4 and c[0] == 'op' and c[1] in ('<', '>', '<=', '>=', '==', '!='):
+                    rel, x, y = c[1], c[2], c[3]
                 else:
-                    return False, 'std::less applied to something else than the two arguments'
+                    return False, 'condition outside the E1 language: ' + str(c)[:80]
+                wx, wy = which(x), which(y)
+                if {wx, wy} != {0, 1}:
+                    return False, 'a relation applied to something else than the two arguments'
+                oo = o if (wx, wy) == (0, 1) else {'<': '>', '>': '<', '=': '='}[o]
+                truth = {'<': oo == '<', '>': oo == '>', '<=': oo in '<=', '>=': oo in '>=', '==': oo == '=', '!=': oo != '='}[rel]
                 if truth != want:
                     ok = False
                     break
             if ok:
                 hits += 1
                 val = v
-        if hits != 1 or val is None or val[0] != 'k':
+        if hits == 1 and val is not None and val[0] != 'k':
+            return False, (f'for l {o} r it returns `{contracts.render(val, State(), {})[:80]}`, not a constant of the right sign: a difference '
+                           'wraps or is truncated by the conversion to the result type')
+        if hits != 1 or val is None:
             return False, f'ordering {o}: {hits} feasible paths'
         table[o] = val[1]
     good = table['<'] < 0 and table['='] == 0 and table['>'] > 0
